@@ -192,7 +192,9 @@ _surf("TotalLift", "aerodynamics.total_lift.TotalLift")
 _surf("ViscousDrag", "aerodynamics.viscous_drag.ViscousDrag", extra_opts=dict(with_viscous=True), cost=10,
       ranges=[(r"^(P\.)?re", 1e5, 1e6), (r"^(P\.)?Mach", 0.2, 0.8), (r"^(P\.)?t_over_c", 0.05, 0.2), (r"cos_sweep", 0.7, 1.0)])
 _surf("ViscousDrag.off", "aerodynamics.viscous_drag.ViscousDrag", extra_opts=dict(with_viscous=False))
-_surf("WaveDrag", "aerodynamics.wave_drag.WaveDrag", ranges=[(r"^(P\.)?Mach", 0.5, 0.9), (r"t_over_c", 0.05, 0.2), (r"cos_sweep", 0.7, 1.0), (r"CL", 0.2, 0.6)])
+# (the fourth power of the area-weighted averages makes the terms of WaveDrag grow too fast for more than two spanwise panels:
+# ny = 4 did not finish in 3000 s; bounded at ny <= 3)
+_surf("WaveDrag", "aerodynamics.wave_drag.WaveDrag", cfgs=product(shapes_1surf(thorough=((3, 3),)), SYM_Q), ranges=[(r"^(P\.)?Mach", 0.5, 0.9), (r"t_over_c", 0.05, 0.2), (r"cos_sweep", 0.7, 1.0), (r"CL", 0.2, 0.6)])
 _surf("WaveDrag.off", "aerodynamics.wave_drag.WaveDrag", surf_kw=dict(with_wave=False))
 
 
